@@ -705,6 +705,24 @@ func anyFeature(method string) func(p *Prog, r *Report) {
 		tmp := newReport(r.Prop)
 		runAnyDelegation(p, tmp)
 		runAnyForms(p, tmp)
+		fb := newReport(r.Prop)
+		runAnyFallbacks(p, fb)
+		// fallbacks live in the helpers of the feature: keep those reached from the feature method
+		reach := anyReach(p, method)
+		for _, o := range fb.Obligs {
+			parts := strings.SplitN(o.Key, "|", 3)
+			if len(parts) == 3 && reach[parts[1]] {
+				construct := parts[2]
+				if i := strings.LastIndex(construct, "#"); i > 0 && strings.Trim(construct[i+1:], "0123456789") == "" {
+					construct = construct[:i]
+				}
+				r.Add(o.Rule, parts[1], construct, o.Pos, o.Status, o.Detail, o.NonTrivial)
+			}
+		}
+		for _, e := range fb.Expect {
+			r.ExpectMin(e.Name, e.Got, e.Min)
+		}
+		r.Clauses = append(r.Clauses, fb.Clauses...)
 		kept := 0
 		for _, o := range tmp.Obligs {
 			parts := strings.SplitN(o.Key, "|", 3)
@@ -834,5 +852,158 @@ func rungFlags(fn *Func, rg anyRung) []string {
 		}
 	}
 	sort.Strings(out)
+	return out
+}
+
+// E13.any-fallbacks — after the ladder, every feature of decoder.Any hands the expression to
+// the same three fallback decoders: Reference (a reference of the constraint's type),
+// functionExpr (a call returning the constraint's type) and LiteralType (a literal of the
+// constraint's type). Each such literal built in a method of Any must take its expression
+// and path context from the receiver and its type from the receiver's constraint
+// (recv.cons.OfType): a fallback built with another type offers / accepts / highlights values
+// of a type the schema does not admit at this place — in that one feature only.
+func runAnyFallbacks(p *Prog, r *Report) {
+	n := 0
+	kindsOf := map[*Func]map[string]bool{}
+	defer func() {
+		var fns []*Func
+		for fn := range kindsOf {
+			fns = append(fns, fn)
+		}
+		sort.Slice(fns, func(i, j int) bool { return fns[i].Name < fns[j].Name })
+		for _, fn := range fns {
+			if len(kindsOf[fn]) < 2 {
+				continue // origins: only calls are looked at with the constraint's type
+			}
+			for _, k := range []string{"Reference", "functionExpr", "LiteralType"} {
+				if !kindsOf[fn][k] {
+					r.Add("E13.any-fallbacks", fn.Name, "fallback "+k, p.Pos(fn.Decl), Violated,
+						"this feature hands the expression to some of the fallback decoders but not to "+k+": its siblings try Reference, functionExpr and LiteralType", true)
+				}
+			}
+		}
+	}()
+	for _, fn := range p.Funcs {
+		if !anyRecv(fn) || fn.Body == nil {
+			continue
+		}
+		info := fn.Info()
+		if len(fn.Decl.Recv.List[0].Names) != 1 {
+			continue
+		}
+		recv := info.ObjectOf(fn.Decl.Recv.List[0].Names[0])
+		isRecvSel := func(e ast.Expr, path ...string) bool {
+			// recv.path[0].path[1]… (through single-definition locals)
+			for _, cand := range []ast.Expr{e, fn.InlineLocals(e, 1), fn.InlineLocals(e, 2)} {
+				cur := ast.Unparen(cand)
+				ok := true
+				for i := len(path) - 1; i >= 0; i-- {
+					sel, isSel := cur.(*ast.SelectorExpr)
+					if !isSel || canonId(sel.Sel.Name) != path[i] {
+						ok = false
+						break
+					}
+					cur = ast.Unparen(sel.X)
+				}
+				if ok {
+					if id, isID := cur.(*ast.Ident); isID && info.ObjectOf(id) == recv {
+						return true
+					}
+				}
+			}
+			return false
+		}
+		ast.Inspect(fn.Body, func(x ast.Node) bool {
+			cl, ok := x.(*ast.CompositeLit)
+			if !ok {
+				return true
+			}
+			t := info.TypeOf(cl)
+			var kind string
+			for _, k := range []string{"Reference", "functionExpr", "LiteralType"} {
+				if typeIs(t, "hcl-lang/decoder", k) {
+					kind = k
+				}
+			}
+			if kind == "" {
+				return true
+			}
+			n++
+			var probs []string
+			if e := kvField(cl, "expr"); e == nil || !isRecvSel(e, "expr") {
+				probs = append(probs, "its expression is not the receiver's (expr: "+exprStr(e)+")")
+			}
+			if e := kvField(cl, "pathCtx"); e == nil || !isRecvSel(e, "pathCtx") {
+				probs = append(probs, "its path context is not the receiver's")
+			}
+			var typArg ast.Expr
+			switch kind {
+			case "functionExpr":
+				typArg = kvField(cl, "returnType")
+			default:
+				if c := kvField(cl, "cons"); c != nil {
+					inner, _ := ast.Unparen(c).(*ast.CompositeLit)
+					if inner == nil {
+						inner, _ = ast.Unparen(fn.InlineLocals(c, 2)).(*ast.CompositeLit)
+					}
+					if inner != nil {
+						if kind == "Reference" {
+							typArg = kvField(inner, "OfType")
+						} else {
+							typArg = kvField(inner, "Type")
+						}
+					}
+				}
+			}
+			if typArg == nil || !isRecvSel(typArg, "cons", "OfType") {
+				got := "unset"
+				if typArg != nil {
+					got = exprStr(typArg)
+				}
+				probs = append(probs, "its type is "+got+", not the type of the receiver's constraint")
+			}
+			key := "fallback " + kind
+			if kindsOf[fn] == nil {
+				kindsOf[fn] = map[string]bool{}
+			}
+			kindsOf[fn][kind] = true
+			if len(probs) == 0 {
+				r.Add("E13.any-fallbacks", fn.Name, key, p.Pos(cl), OK, "expression, path context and type come from the receiver and its constraint", true)
+			} else {
+				r.Add("E13.any-fallbacks", fn.Name, key, p.Pos(cl), Violated, "the "+kind+" fallback of this feature is built differently from its siblings: "+strings.Join(probs, "; "), true)
+			}
+			return true
+		})
+	}
+	r.ExpectMin("E13.any-fallback-literals", n, 6)
+	r.Clauses = append(r.Clauses, "E13.any-fallbacks: every Reference / functionExpr / LiteralType decoder built in a method of decoder.Any takes expr and pathCtx from the receiver and its type from recv.cons.OfType")
+}
+
+// anyReach: names of the methods of Any reached (through methods of Any) from the feature method.
+func anyReach(p *Prog, method string) map[string]bool {
+	out := map[string]bool{}
+	var walk func(fn *Func, depth int)
+	walk = func(fn *Func, depth int) {
+		if out[fn.Name] || depth < 0 {
+			return
+		}
+		out[fn.Name] = true
+		info := fn.Info()
+		ast.Inspect(fn.Body, func(x ast.Node) bool {
+			if call, ok := x.(*ast.CallExpr); ok {
+				if f := calleeOf(info, call); f != nil {
+					if cf := p.FuncOf[f]; cf != nil && cf.Body != nil && anyRecv(cf) {
+						walk(cf, depth-1)
+					}
+				}
+			}
+			return true
+		})
+	}
+	for _, fn := range p.Funcs {
+		if anyRecv(fn) && fn.Body != nil && bareFuncName(fn) == method {
+			walk(fn, 4)
+		}
+	}
 	return out
 }
